@@ -84,7 +84,7 @@ func NewNodeConf(id string, join []string) *config.Config {
 	conf.Cluster.AbortIfJoinFails = false
 	conf.Cluster.JoinTimeout = 2 * time.Second
 	conf.Cluster.Gossip.BindAddr = "127.0.0.1:0"
-	conf.Cluster.Gossip.Interval = 10 * time.Millisecond
+	conf.Cluster.Gossip.Interval = 40 * time.Millisecond
 	conf.Proxy.AccessLog.Disable = true
 	conf.GracePeriod = 10 * time.Second
 	return conf
